@@ -401,6 +401,8 @@ impl Subscription {
 
     async fn run(&mut self, mut matcher: SubscriptionMatcher) -> Result<(), SubscriptionError> {
         self.read_history(&mut matcher).await?;
+        #[cfg(feature = "verif-hooks")]
+        crate::verif::pause_async("sub:history-done", self.subscription_id.as_u128()).await;
 
         loop {
             match self.broadcast_rx.recv().await {
@@ -522,7 +524,11 @@ impl Subscription {
             .database
             .read_partition(partition_id, *from_sequence, IterDirection::Forward)
             .await?;
+        #[cfg(feature = "verif-hooks")]
+        crate::verif::pause_async("sub:partition:before-first-batch", self.subscription_id.as_u128()).await;
         'iter: while let Some(commits) = iter.next_batch(DEFAULT_BATCH_SIZE).await? {
+            #[cfg(feature = "verif-hooks")]
+            crate::verif::pause_async("sub:partition:batch-fetched", self.subscription_id.as_u128()).await;
             for commit in commits {
                 let Some(first_partition_sequence) = commit.first_partition_sequence() else {
                     continue;
@@ -598,6 +604,8 @@ impl Subscription {
                             partition_iters.remove(&partition_id);
                             continue;
                         };
+                        #[cfg(feature = "verif-hooks")]
+                        crate::verif::pause_async("sub:partitions:batch-fetched", self.subscription_id.as_u128()).await;
 
                         for commit in commits {
                             let Some(first_partition_sequence) = commit.first_partition_sequence()
@@ -683,7 +691,11 @@ impl Subscription {
                 IterDirection::Forward,
             )
             .await?;
+        #[cfg(feature = "verif-hooks")]
+        crate::verif::pause_async("sub:stream:before-first-batch", self.subscription_id.as_u128()).await;
         while let Some(commits) = iter.next_batch(DEFAULT_BATCH_SIZE).await? {
+            #[cfg(feature = "verif-hooks")]
+            crate::verif::pause_async("sub:stream:batch-fetched", self.subscription_id.as_u128()).await;
             for commit in commits {
                 let Some(first_partition_sequence) = commit.first_partition_sequence() else {
                     continue;
